@@ -1,10 +1,11 @@
 package main
 
 // "Unmarshalling replaces" (Text.tla, section of that name): a document or text A decoded
-// into a receiver that already holds a value B yields A, not a mixture. In scope are the
-// types whose decoding is core's code (a custom UnmarshalJSON / UnmarshalText); for plain
-// structs encoding/json merges by design (absent members keep the receiver's value), so
-// their lines are logged as information only (custom = false).
+// into a receiver that already holds a value B yields A, not a mixture -- for scalar text
+// forms (every UnmarshalText, every JSON string) and for the JSON types that are not a plain
+// object-of-fields (Text!VariantJSONTypes). Plain object documents follow Go's merge
+// semantics (an absent member leaves the field untouched), also when a custom unmarshaller
+// decodes the object field by field: their lines are information only (scope = false).
 
 import (
 	"encoding"
@@ -24,9 +25,20 @@ func hasCustomUnmarshal(t reflect.Type) bool {
 	return p.Implements(jsonUnmarshalerType) || p.Implements(textUnmarshalerType)
 }
 
+// Text!VariantJSONTypes: JSON forms that are not a plain object-of-fields
+var variantJSONTypes = map[string]bool{"ApplyUpdate": true, "RevertUpdate": true, "V2FileContractResolution": true,
+	"V2FileContractElementDiff": true, "SpendPolicy": true, "ElementAccumulator": true}
+
+// inReplaceClause mirrors Text!InReplaceClause (TLC checks that both agree on every line)
+func inReplaceClause(how string, doc []byte, typ string) (scope, scalar bool) {
+	scalar = how == "json" && len(doc) > 0 && doc[0] == '"'
+	return how == "text" || scalar || variantJSONTypes[typ], scalar
+}
+
 // usedJSON decodes document b and then document a into one receiver of type t.
 func usedJSON(typ string, t reflect.Type, a, b []byte) map[string]any {
-	line := map[string]any{"ev": "used", "type": typ, "how": "json", "custom": hasCustomUnmarshal(t), "fok": false, "uok": false,
+	scope, scalar := inReplaceClause("json", a, typ)
+	line := map[string]any{"ev": "used", "type": typ, "how": "json", "scope": scope, "scalar": scalar, "custom": hasCustomUnmarshal(t), "fok": false, "uok": false,
 		"same": false, "eq": false, "nontrivial": string(a) != string(b), "diff": "", "chain": -1, "seq": 0}
 	fresh, err, pan := parseJSON(t, a)
 	if err != nil || pan != nil {
@@ -60,7 +72,7 @@ func usedJSON(typ string, t reflect.Type, a, b []byte) map[string]any {
 
 // usedText: the same for MarshalText / UnmarshalText of a text kind.
 func usedText(k *kindDef, a, b string) map[string]any {
-	line := map[string]any{"ev": "used", "type": k.name, "how": "text", "custom": true, "fok": false, "uok": false,
+	line := map[string]any{"ev": "used", "type": k.name, "how": "text", "scope": true, "scalar": false, "custom": true, "fok": false, "uok": false,
 		"same": false, "eq": false, "nontrivial": a != b, "diff": "", "chain": -1, "seq": 0}
 	if k.name == "SpendPolicy" {
 		return nil // ParseSpendPolicy returns a value; there is no receiver
@@ -90,7 +102,7 @@ func usedText(k *kindDef, a, b string) map[string]any {
 
 // usedFails: the verdict of a "used" line as the real code produced it (for replays)
 func usedFails(line map[string]any) bool {
-	return line["custom"] == true && line["fok"] == true && (line["uok"] != true || line["same"] != true || line["eq"] != true)
+	return line["scope"] == true && line["fok"] == true && (line["uok"] != true || line["same"] != true || line["eq"] != true)
 }
 
 // usedKey: one key per type (the detail names the first field that kept a previous value)
